@@ -21,12 +21,13 @@ def parseFont (fs : List (String × String)) : Option Font := do
   let ns ← getField fs "names"
   let names ← if ns == "-" then some [] else (ns.splitOn ",").mapM hexNats
   let cs ← getField fs "cmap"
-  let cmap ← if cs.isEmpty then some [] else
+  let noCmap := cs == "none"
+  let cmap ← if cs.isEmpty || noCmap then some [] else
     (cs.splitOn ",").mapM fun p =>
       match p.splitOn ":" with
       | [r, g] => do pure ((← r.toNat?), (← g.toNat?))
       | _ => none
-  pure { numGlyphs := n, names := names, cmap := cmap }
+  pure { numGlyphs := n, names := names, cmap := cmap, noCmap := noCmap }
 
 def showL (l : List Nat) (sep : String) : String := sep.intercalate (l.map toString)
 
